@@ -439,3 +439,187 @@ def int_value(n):
         v = int_value(kids(n)[0])
         return -v if v is not None else None
     return None
+
+
+# --------------------------------------------------------------------------------------
+# inlining of small file-local helpers (robustness against "extract a static helper" refactorings)
+
+def inline_static_helpers(units, exclude=()):
+    """Replace calls of small `static` helper functions by their bodies, in the AST of the calling functions (the helper definitions stay).
+    Two shapes only:  an expression helper  `static T h(params){ return expr; }`  used anywhere, and a statement helper  `static void h(params){ ... }`
+    without `return`, called as a statement.  Conditions: defined in the same unit, not recursive, does not call another helper, never has its address
+    taken, never assigns to / takes the address of a parameter; arguments are copied in place of the parameters (an argument that may have side effects
+    blocks the inlining of that call).  Returns {unit: [(caller, helper, line)]} for the evidence."""
+    import copy
+    done = {}
+    for uname, u in units.items():
+        helpers = {}
+        for name, fd in u.funcs.items():
+            if fd.get('storageClass') != 'static' or name in exclude:
+                continue
+            body = body_of(fd)
+            params = params_of(fd)
+            if body is None or sum(1 for _ in walk(body)) > 600:
+                continue
+            pid = {p['id'] for p in params}
+            bad = False
+            for n in walk(body):
+                k = n.get('kind')
+                if k == 'CallExpr' and callee_name(n) == name:
+                    bad = True
+                if k in ('BinaryOperator', 'CompoundAssignOperator') and n.get('opcode', '').endswith('=') and n.get('opcode') not in ('==', '!=', '<=', '>='):
+                    if ref_id(kids(n)[0]) in pid:
+                        bad = True
+                if k == 'UnaryOperator' and n.get('opcode') in ('++', '--', '&') and ref_id(kids(n)[0]) in pid:
+                    bad = True
+                if k in ('GotoStmt', 'LabelStmt', 'SwitchStmt'):
+                    bad = True
+            if bad:
+                continue
+            stmts = kids(body)
+            # leading guards  `if (c) return;`  of a void helper: on inlining the rest of the body runs under !(c)
+            guards = 0
+            for st_ in stmts:
+                s0_ = strip(st_)
+                if s0_.get('kind') == 'IfStmt' and len(kids(s0_)) == 2:
+                    th_ = strip(kids(s0_)[1])
+                    if th_.get('kind') == 'CompoundStmt' and len(kids(th_)) == 1:
+                        th_ = strip(kids(th_)[0])
+                    if th_.get('kind') == 'ReturnStmt' and not kids(th_):
+                        guards += 1
+                        continue
+                if s0_.get('kind') == 'DeclStmt' and guards == 0:
+                    continue
+                break
+            rets = [n for n in walk(body) if n.get('kind') == 'ReturnStmt']
+            if guards and len(rets) == guards and not any(strip(x).get('kind') == 'DeclStmt' for x in stmts[:0]):
+                # rebuild the body:  { decls; if(!(c1)) { if(!(c2)) { rest } } }
+                lead, rest_, conds = [], [], []
+                seen_guard = False
+                for st_ in stmts:
+                    s0_ = strip(st_)
+                    isg = False
+                    if s0_.get('kind') == 'IfStmt' and len(kids(s0_)) == 2 and len(conds) < guards:
+                        th_ = strip(kids(s0_)[1])
+                        if th_.get('kind') == 'CompoundStmt' and len(kids(th_)) == 1:
+                            th_ = strip(kids(th_)[0])
+                        isg = th_.get('kind') == 'ReturnStmt' and not kids(th_)
+                    if isg:
+                        conds.append(kids(s0_)[0])
+                        seen_guard = True
+                    elif not seen_guard:
+                        lead.append(st_)
+                    else:
+                        rest_.append(st_)
+                inner_ = {'kind': 'CompoundStmt', 'range': body.get('range'), 'inner': rest_}
+                for c_ in conds[::-1]:
+                    neg = {'kind': 'UnaryOperator', 'opcode': '!', 'type': {'qualType': 'int'}, 'range': c_.get('range'),
+                           'inner': [{'kind': 'ParenExpr', 'type': c_.get('type'), 'range': c_.get('range'), 'inner': [c_]}]}
+                    inner_ = {'kind': 'CompoundStmt', 'range': body.get('range'),
+                              'inner': [{'kind': 'IfStmt', 'range': body.get('range'), 'inner': [neg, inner_]}]}
+                body = {'kind': 'CompoundStmt', 'range': body.get('range'), 'inner': lead + inner_['inner']}
+                stmts = kids(body)
+                rets = []
+            def ret_expr(x):
+                x = strip(x)
+                if x.get('kind') == 'CompoundStmt' and len(kids(x)) == 1:
+                    x = strip(kids(x)[0])
+                return kids(x)[0] if x.get('kind') == 'ReturnStmt' and kids(x) else None
+            two_way = None
+            if len(stmts) in (1, 2) and strip(stmts[0]).get('kind') == 'IfStmt':
+                ks_ = kids(strip(stmts[0]))
+                a_ = ret_expr(ks_[1]) if len(ks_) >= 2 else None
+                b_ = ret_expr(ks_[2]) if len(ks_) == 3 and len(stmts) == 1 else (ret_expr(stmts[1]) if len(ks_) == 2 and len(stmts) == 2 else None)
+                if a_ is not None and b_ is not None:
+                    # if (c) return a; else return b;   is the expression  c ? a : b
+                    two_way = {'kind': 'ConditionalOperator', 'type': a_.get('type'), 'range': strip(stmts[0]).get('range'), 'inner': [ks_[0], a_, b_]}
+            if two_way is not None:
+                helpers[name] = ('expr', fd, params, two_way)
+            elif len(stmts) == 1 and strip(stmts[0]).get('kind') == 'ReturnStmt' and kids(strip(stmts[0])):
+                helpers[name] = ('expr', fd, params, kids(strip(stmts[0]))[0])
+            elif not rets:
+                helpers[name] = ('stmt', fd, params, body)
+        if not helpers:
+            continue
+        # a helper that calls another helper, or whose address is taken, is left alone
+        for name in list(helpers):
+            if any(n.get('kind') == 'CallExpr' and callee_name(n) in helpers and callee_name(n) != name for n in walk(helpers[name][3])):
+                helpers.pop(name)
+        hid = {h[1]['id']: nm for nm, h in helpers.items()}
+        for f in u.funcs.values():
+            for n in walk(body_of(f) or {}):
+                if n.get('kind') == 'CallExpr':
+                    for a in call_args(n):
+                        for m in walk(a):
+                            if m.get('kind') == 'DeclRefExpr' and m['referencedDecl'].get('id') in hid:
+                                helpers.pop(hid[m['referencedDecl']['id']], None)
+        if not helpers:
+            continue
+        counter = [0]
+
+        def pure(e):
+            for m in walk(e):
+                if m.get('kind') == 'CallExpr' and callee_name(m) not in ('getMatrixValue', 'getDVectorValue', 'getTensorValue', 'getUIVectorValue', 'fabs', 'sqrt', 'square'):
+                    return False
+                if m.get('kind') in ('BinaryOperator', 'CompoundAssignOperator') and m.get('opcode', '').endswith('=') and m.get('opcode') not in ('==', '!=', '<=', '>='):
+                    return False
+                if m.get('kind') == 'UnaryOperator' and m.get('opcode') in ('++', '--'):
+                    return False
+            return True
+
+        def subst(node, amap, suffix, locals_):
+            if node.get('kind') == 'DeclRefExpr' and node['referencedDecl'].get('id') in amap:
+                a = copy.deepcopy(amap[node['referencedDecl']['id']])
+                return {'kind': 'ParenExpr', 'type': a.get('type'), 'range': a.get('range'), 'inner': [a]}
+            out = {k: v for k, v in node.items() if k != 'inner'}
+            if node.get('kind') == 'VarDecl' and node.get('id') in locals_:
+                out['id'] = node['id'] + suffix
+            if node.get('kind') == 'DeclRefExpr' and node['referencedDecl'].get('id') in locals_:
+                out['referencedDecl'] = dict(node['referencedDecl'], id=node['referencedDecl']['id'] + suffix)
+            if 'inner' in node:
+                out['inner'] = [subst(c, amap, suffix, locals_) if isinstance(c, dict) else c for c in node['inner']]
+            return out
+
+        def rewrite(fname, node):
+            inner = node.get('inner')
+            if not inner:
+                return
+            splice = []
+            for i, c in enumerate(inner):
+                if not isinstance(c, dict):
+                    continue
+                rewrite(fname, c)
+                tgt = c
+                # a statement-level call may be wrapped in implicit casts only for expression helpers
+                if tgt.get('kind') == 'CallExpr' and callee_name(tgt) in helpers and callee_name(tgt) != fname:
+                    kind, fd, params, payload = helpers[callee_name(tgt)]
+                    args = call_args(tgt)
+                    if len(args) != len(params) or not all(pure(a) for a in args):
+                        continue
+                    amap = {p['id']: a for p, a in zip(params, args)}
+                    counter[0] += 1
+                    suffix = '@inl%d' % counter[0]
+                    locals_ = {m['id'] for m in walk(payload) if m.get('kind') == 'VarDecl'}
+                    if kind == 'expr':
+                        inner[i] = {'kind': 'ParenExpr', 'type': tgt.get('type'), 'range': tgt.get('range'), '_inlined': callee_name(tgt),
+                                    'inner': [subst(payload, amap, suffix, locals_)]}
+                    elif node.get('kind') in ('CompoundStmt', 'IfStmt', 'ForStmt', 'WhileStmt', 'DoStmt'):
+                        if node.get('kind') != 'CompoundStmt' and i == 0:
+                            continue        # the condition position of if/while
+                        new = subst(payload, amap, suffix, locals_)
+                        new['range'] = tgt.get('range')
+                        new['_inlined'] = callee_name(tgt)
+                        inner[i] = new
+                        if node.get('kind') == 'CompoundStmt':
+                            splice.append(i)        # the statements of the helper take the place of the call in the enclosing block
+                    else:
+                        continue
+                    done.setdefault(uname, []).append((fname, callee_name(tgt), begin(tgt).get('line')))
+            for i in splice[::-1]:
+                inner[i:i + 1] = [x for x in inner[i].get('inner', []) if isinstance(x, dict)]
+        for fname, f in u.funcs.items():
+            b = body_of(f)
+            if b is not None:
+                rewrite(fname, b)
+        u.reindex()
+    return done
